@@ -7,11 +7,12 @@ import coqlit as L
 
 ID = "C02"
 COQ_PROPERTY_FILE = "Properties/C02.v"
-COQ_DEPS = ["Common/ListX.v", "Common/ObsHash.v", "Generated/Tables.v", "Model/Registry.v", "Proofs/RegistryProofs.v"]
+COQ_DEPS = ["Common/ListX.v", "Common/ObsHash.v", "Generated/Tables.v", "Model/Registry.v", "Proofs/RegistryProofs.v",
+            "Proofs/RegistryMore.v"]
 COQ_IMPORTS = "From Mesa Require Import Model.Registry."
 COQ_CASE_TYPE = "case"
 COQ_RUN = "run_case"
-TABLE_CONSTRUCTS = []
+TABLE_CONSTRUCTS = ["agent_first_id", "deregister_order", "register_order", "remove_suppresses_keyerror"]
 RULE = ("histories = 1-3 coexisting models (more via new_model) + 4-40 ops out of: constructor call, create_agents "
         "(scalar / list / tuple / ndarray / str argument, positional or keyword, length = n and != n, n in -1..4), "
         "agent.remove (also of removed agents), model.deregister_agent, remove_all_agents, in-place shuffle/sort of "
@@ -23,6 +24,7 @@ RULE = ("histories = 1-3 coexisting models (more via new_model) + 4-40 ops out o
 TRUSTED_BASE = [
     "Coq 8.16.1 kernel (coqc); vm_compute used for evaluating the model in the correspondence and for the examples",
     "no axioms: Print Assumptions reports 'Closed under the global context' for every C02 theorem",
+    "harness/tables/registry.py (T1) extracting the first id, the statement order of register_agent/deregister_agent and the shape of Agent.remove/remove_all_agents",
     "harness/props/C02.py driver+observer and the Gallina literal printer (T2, differential testing, not a proof)",
     "Model/Registry.v is a hand transcription of Agent.__init__/remove/create_agents and Model.register_agent/"
     "deregister_agent/remove_all_agents, AgentSet.do/shuffle_do loop; dict and WeakKeyDictionary = insertion-ordered "
